@@ -101,6 +101,26 @@ def run(ctx, prop):
         a = R.add(st, maxout=1)
         b = R.add(flat, maxout=1)
         plan.append((a, b, decl, fname, c))
+    # realistic code: seeded random 32-bit programs (spec/Gen_Prog.tla) with a random subset of their labels declared GLOBAL,
+    # in random order, in one or several statements, before or after the definitions
+    import progs
+    for ci, c in enumerate(progs.gen(ctx, 40 if quick else 400, length=16, nl=5, bits=32)):
+        body = progs.complete(c, org=None, bits=32, equs=True)[1:]     # (drop the leading BITS: re-added in the header)
+        labs = [s_["nm"] for s_ in body if s_["k"] == "label"]
+        decl = rng.sample(labs, rng.randrange(0, len(labs) + 1))
+        if ci % 4 == 0 and decl:
+            decl.append(decl[0])           # a duplicate declaration
+        if ci % 5 == 0:
+            decl.append("_never_defined_%d" % ci)
+        hdr = [{"k": "cfg", "mn": "FORMAT", "s": "WCOFF"}, {"k": "cfg", "mn": "INSTRSET", "s": '"i486p"'}, {"k": "bits", "v": 32}, {"k": "cfg", "mn": "FILE", "s": "prog%d.nas" % ci}]
+        g = []
+        if decl:
+            g = [{"k": "global", "names": decl}] if ci % 2 else [{"k": "global", "names": [n]} for n in decl]
+        st = hdr + (g if ci % 3 else []) + [{"k": "cfg", "mn": "SECTION", "s": ".text"}] + body + ([] if ci % 3 else g)
+        flat = [s_ for s_ in st if not (s_["k"] == "cfg" and s_["mn"] == "FORMAT")]
+        a = R.add(st, maxout=1)
+        b = R.add(flat, maxout=1)
+        plan.append((a, b, decl, "prog%d.nas" % ci, None))
     R.run()
     events = []
     ndiag = 0
